@@ -49,6 +49,9 @@ type apiWorld struct {
 	lpsnap  string
 	pshape  map[string]*patchShape
 	lpshape *patchShape
+	sharedOptS *v5.ApplyOptions // the same for the schedule engine's small inputs (limit 12: one application copies 9 bytes)
+	sharedOpt *v5.ApplyOptions // ONE options value reused by several calls (a call must not leave anything in it)
+	optSnap   v5.ApplyOptions
 	keep    *[]keptResult // when set: every returned byte slice is remembered, to see whether a LATER call writes into it
 	calls   []apiCall
 	menu    []int // indices of the calls the history engine uses (the small-input calls are for the schedule engine)
@@ -60,10 +63,12 @@ var apiTexts = map[string]string{
 	"docArr":   ` [ {"a": 1}, [2, 3], "t" ] `,
 	"docBad":   `{"a":[1,}`,
 	"docNum":   `17`,
-	"patchOK":  `[{"op":"add","path":"/a/b/-","value":{"v":[null,"<"]}},{"op":"add","path":"/a/b/2/v/-","value":7},{"op":"copy","from":"/a/b/1","path":"/cp"},{"op":"test","path":"/cp","value":{"c":"<x>"}},{"op":"move","from":"/z","path":"/a/n"},{"op":"remove","path":"/k"},{"op":"replace","path":"/a/b/0","value":2}]`,
+	"patchOK":  `[{"op":"add","path":"/a/b/-","value":{"v":[null,"<"]}},{"op":"add","path":"/a/b/2/v/-","value":7},{"op":"copy","from":"/a/b/1","path":"/cp"},{"op":"test","path":"/cp","value":{ "c" : "<x>" }},{"op":"move","from":"/z","path":"/a/n"},{"op":"remove","path":"/k"},{"op":"replace","path":"/a/b/0","value":2}]`,
 	"patchArr": `[{"op":"add","path":"/1/-","value":{"q":1}},{"op":"copy","from":"/0","path":"/-"},{"op":"test","path":"/2","value":"t"}]`,
 	"patchTst": `[{"op":"add","path":"/w","value":1},{"op":"test","path":"/a/n","value":"no"}]`,
 	"patchNeg": `[{"op":"add","path":"/1/-1","value":9},{"op":"remove","path":"/-1"}]`,
+	"patchCopyFail": `[{"op":"copy","from":"/a/b","path":"/c1"},{"op":"test","path":"/k","value":"no"}]`,
+	"patchCopyBig":  `[{"op":"copy","from":"/a","path":"/c1"},{"op":"copy","from":"/a","path":"/c2"},{"op":"copy","from":"/a","path":"/c3"}]`,
 	"patchBad": `[{"op":"add","path":"/w","value":1},`,
 	"patchInv": `[{"op":"add","path":"/w"}]`,
 	"patchObj": `{}`,
@@ -77,7 +82,7 @@ var apiTexts = map[string]string{
 	"eqB":      ` { "w" : true , "x" : [ 1 , null , { "y" : "A" } ] } `,
 	// small inputs for the schedule engine (fewer scheduling points per call)
 	"docS":      `{"a":{"b":[1]},"k":"<"}`,
-	"patchS":    `[{"op":"copy","from":"/a","path":"/c"},{"op":"test","path":"/c/b/0","value":1},{"op":"add","path":"/a/b/-","value":{"v":null}},{"op":"replace","path":"/a/b/1/v","value":[1]}]`,
+	"patchS":    `[{"op":"copy","from":"/a","path":"/c"},{"op":"test","path":"/c/b","value":[ 1 ]},{"op":"add","path":"/a/b/-","value":{"v":null}},{"op":"replace","path":"/a/b/1/v","value":[1]}]`,
 	"patchTstS": `[{"op":"test","path":"/k","value":"no"}]`,
 	"mpS":       `{"a":{"b":null,"n":{"x":null}},"k":2}`,
 	"tgtS":      `{"a":{"b":[2]},"q":1}`,
@@ -92,6 +97,15 @@ func newAPIWorld() *apiWorld {
 		w.snaps[k] = t
 	}
 	w.decodePatches()
+	w.sharedOpt = v5.NewApplyOptions()
+	w.sharedOpt.AccumulatedCopySizeLimit = 40
+	w.optSnap = *w.sharedOpt
+	w.sharedOptS = v5.NewApplyOptions()
+	w.sharedOptS.AccumulatedCopySizeLimit = 12
+	w.bufs["deepOpen"] = []byte(strings.Repeat("[", 2000))
+	w.snaps["deepOpen"] = string(w.bufs["deepOpen"])
+	w.bufs["deepOver"] = []byte(strings.Repeat("[", 10001) + strings.Repeat("]", 10001))
+	w.snaps["deepOver"] = string(w.bufs["deepOver"])
 	B := func(k string) []byte { return w.bufs[k] }
 	opt := func() *v5.ApplyOptions {
 		o := v5.NewApplyOptions()
@@ -138,6 +152,7 @@ func newAPIWorld() *apiWorld {
 		{"Equal(docObj,tgtObj)", true, func(w *apiWorld) ([]byte, error) { return boolBytes(v5.Equal(B("docObj"), B("tgtObj"))), nil }},
 		{"Equal(docBad,docBad) [malformed]", true, func(w *apiWorld) ([]byte, error) { return boolBytes(v5.Equal(B("docBad"), B("docBad"))), nil }},
 		{"Ps.Apply(docS)", true, func(w *apiWorld) ([]byte, error) { return w.patches["patchS"].Apply(B("docS")) }},
+		{"Ps.ApplyWithOptions(docS, SHARED opts limit=12)", true, func(w *apiWorld) ([]byte, error) { return w.patches["patchS"].ApplyWithOptions(B("docS"), w.sharedOptS) }},
 		{"Ps.ApplyIndent(docS)", true, func(w *apiWorld) ([]byte, error) { return w.patches["patchS"].ApplyIndent(B("docS"), " ") }},
 		{"DecodePatch(patchS)+Apply(docS)", true, func(w *apiWorld) ([]byte, error) {
 			p, err := v5.DecodePatch(B("patchS"))
@@ -151,6 +166,17 @@ func newAPIWorld() *apiWorld {
 		{"Equal(eqS1,eqS2)", true, func(w *apiWorld) ([]byte, error) { return boolBytes(v5.Equal(B("eqS1"), B("eqS2"))), nil }},
 		{"PtstS.Apply(docS) [failing test]", true, func(w *apiWorld) ([]byte, error) { return w.patches["patchTstS"].Apply(B("docS")) }},
 		{"Ps.Apply(docBad) [malformed]", true, func(w *apiWorld) ([]byte, error) { return w.patches["patchS"].Apply(B("docBad")) }},
+		// one shared *ApplyOptions value (limit 40): a succeeding call, one that copies and then fails, one stopped by the limit
+		{"P.ApplyWithOptions(docObj, SHARED opts limit=40)", true, func(w *apiWorld) ([]byte, error) { return w.patches["patchOK"].ApplyWithOptions(B("docObj"), w.sharedOpt) }},
+		{"PcopyFail.ApplyWithOptions(docObj, SHARED opts) [copies, then a test fails]", true, func(w *apiWorld) ([]byte, error) {
+			return w.patches["patchCopyFail"].ApplyWithOptions(B("docObj"), w.sharedOpt)
+		}},
+		{"PcopyBig.ApplyIndentWithOptions(docObj, SHARED opts) [stopped by the limit]", true, func(w *apiWorld) ([]byte, error) {
+			return w.patches["patchCopyBig"].ApplyIndentWithOptions(B("docObj"), " ", w.sharedOpt)
+		}},
+		// rejected inputs with very many open containers (the scanner keeps / drops its stack)
+		{"Equal(deepOpen,docObj) [2000 unclosed brackets]", true, func(w *apiWorld) ([]byte, error) { return boolBytes(v5.Equal(B("deepOpen"), B("docObj"))), nil }},
+		{"P.Apply(deepOver) [nesting 10001]", true, func(w *apiWorld) ([]byte, error) { return w.patches["patchOK"].Apply(B("deepOver")) }},
 		// package-level defaults are read on every call (never cached): the same calls under changed defaults
 		{"AccumulatedCopySizeLimit=5: P.Apply(docObj)", true, func(w *apiWorld) ([]byte, error) {
 			old := v5.AccumulatedCopySizeLimit
@@ -246,7 +272,7 @@ func decodeOnly(b []byte) ([]byte, error) {
 }
 
 func (w *apiWorld) decodePatches() {
-	for _, k := range []string{"patchOK", "patchArr", "patchTst", "patchNeg", "patchS", "patchTstS"} {
+	for _, k := range []string{"patchOK", "patchArr", "patchTst", "patchNeg", "patchCopyFail", "patchCopyBig", "patchS", "patchTstS"} {
 		p, err := v5.DecodePatch([]byte(apiTexts[k])) // from a private copy: the Patch must not alias a shared buffer
 		if err != nil {
 			panic("harness patch " + k + ": " + err.Error())
@@ -320,6 +346,14 @@ func (w *apiWorld) inputsIntact() []string {
 			bad = append(bad, fmt.Sprintf("input buffer %s was modified: %q -> %q", k, w.snaps[k], b))
 			w.bufs[k] = []byte(w.snaps[k])
 		}
+	}
+	if w.sharedOptS.AccumulatedCopySizeLimit != 12 {
+		bad = append(bad, "the shared ApplyOptions value (small inputs) was modified")
+		w.sharedOptS.AccumulatedCopySizeLimit = 12
+	}
+	if *w.sharedOpt != w.optSnap {
+		bad = append(bad, fmt.Sprintf("the shared ApplyOptions value was modified: %+v -> %+v", w.optSnap, *w.sharedOpt))
+		*w.sharedOpt = w.optSnap
 	}
 	redecode := false
 	for k, p := range w.patches {
